@@ -102,7 +102,7 @@ Theorem C02_ref_matchb_spec : forall a url host hs,
 Proof. exact ref_matchb_spec. Qed.
 Print Assumptions C02_ref_matchb_spec.
 
-(* ---- from the text of a rule.  PARTIAL: the parse step (model parse_line of
+(* ---- from the text of a rule.  (Formerly PARTIAL; see C02_check_line_ref at the end of this file, where the premise parse_ok is discharged for every line.)  The parse step (model parse_line of
    NetworkFilter::parse) enters through the decidable premise [parse_ok line]; that every
    non-degenerate line outside F22 satisfies it is proved only for the finite domain below and is
    otherwise evaluated per generated rule by the correspondence run (text_tie). ---- *)
@@ -136,3 +136,65 @@ Print Assumptions C02_host_right_pipe_refuted.
 Theorem C02_wf_request_decidable : forall r hs, wf_requestb r hs = true -> wf_request r hs.
 Proof. exact wf_requestb_spec. Qed.
 Print Assumptions C02_wf_request_decidable.
+
+(* ------------------------------------------------------------------ the parse step for ALL lines
+   (C02_Parse_Proofs.v): the text-level theorem is no longer partial *)
+From Adb Require Import C02_Parse_Proofs.
+
+(* ---- the parse step, for ALL lines (no length bound, no alphabet restriction): outside the
+   degenerate spellings (nondegenerate_text) and the known finding F22 (host_right_pipe), the
+   fields the model of NetworkFilter::parse produces are well-formed (wf_fields), non-degenerate
+   (nondegenerate_fields), and denote exactly the declarative reading of the text
+   (ast_of_fields = ast_of_text).  No further side condition is needed. ---- *)
+Theorem C02_parse_preserves_ast : forall line,
+  nondegenerate_text line = true -> host_right_pipe line = false -> parse_ok line = true.
+Proof. exact parse_preserves_ast. Qed.
+Print Assumptions C02_parse_preserves_ast.
+
+(* ---- from the text of a rule: check_pattern on the parsed fields of a line = ABP semantics of
+   the text of the line.  The parse premise [parse_ok line] of C02_check_line_ref_partial is
+   discharged by C02_parse_preserves_ast. ---- *)
+Theorem C02_check_line_ref : forall re_ok re_match line r hs,
+  let pf := parse_line line in
+  nondegenerate_text line = true ->
+  host_right_pipe line = false ->
+  wf_request r hs ->
+  (forall f, pf_filter pf = Some f -> s_rx (pf_shape pf) = true ->
+             re_std re_ok re_match (translate f (s_la (pf_shape pf)) (s_ra (pf_shape pf)))
+                    (s_la (pf_shape pf)) (s_ra (pf_shape pf)) (toks f)) ->
+  (check_pattern_sh re_ok re_match (pf_shape pf) (fs_of (pf_filter pf)) (pf_hostname pf) r = true <->
+   ref_match (ast_of_text line) (lower_str (r_url r)) (r_host r) hs).
+Proof. exact check_line_ref_full. Qed.
+Print Assumptions C02_check_line_ref.
+
+(* ---- the per-rule check of the correspondence run (text_tie), on the model's own parse of
+   any line, is always true ---- *)
+Theorem C02_text_tie_parse_line : forall line,
+  let pf := parse_line line in
+  text_tie line (mask_of_shape (pf_shape pf)) (pf_filter pf) (pf_hostname pf) = true.
+Proof. exact text_tie_parse_line. Qed.
+Print Assumptions C02_text_tie_parse_line.
+
+(* ---- regression: the former finite-domain statement follows from the general one ---- *)
+Theorem C02_parse_preserves_ast_bounded_from_general : forall line,
+  (length line <= 6)%nat -> Forall (fun b => In b ALPHA) line ->
+  nondegenerate_text line = true -> host_right_pipe line = false -> parse_ok line = true.
+Proof. exact parse_preserves_ast_implies_bounded. Qed.
+Print Assumptions C02_parse_preserves_ast_bounded_from_general.
+
+(* ------------------------------------------------------------------ translator tie for compile_regex:
+   escape class and replacement texts as extracted from src/regex_manager.rs on this run *)
+From Adb Require Import C02_Tables_Proofs.
+
+Theorem C02_src_special_table : forall b, is_special b = memN b C02Gen.special_re_chars.
+Proof. exact special_table_agrees. Qed.
+Print Assumptions C02_src_special_table.
+
+Theorem C02_src_special_is_l0_meta : forall b, memN b C02Gen.special_re_chars = memN b l0_regex_meta.
+Proof. exact special_is_l0_meta. Qed.
+Print Assumptions C02_src_special_is_l0_meta.
+
+Theorem C02_src_replacement_texts :
+  C02Gen.wildcard_txt = DOTSTAR /\ C02Gen.sep_txt = SEP_TXT /\ C02Gen.sep_eol_txt = SEP_EOL_TXT.
+Proof. exact replacement_texts_agree. Qed.
+Print Assumptions C02_src_replacement_texts.
